@@ -4,3 +4,9 @@ From Frugal Require Import Checks.
 
 Lemma access_ok_holds : access_ok = true.
 Proof. vm_compute. reflexivity. Qed.
+
+Lemma unlocked_closed_holds : closed_under entry_points all_fns edge unlocked_fns = true.
+Proof. vm_compute. reflexivity. Qed.
+
+Lemma locked_disjoint_holds : disjoint locked_fns unlocked_fns = true.
+Proof. vm_compute. reflexivity. Qed.
